@@ -324,8 +324,22 @@ def frame_and_options(draw, thorough=False, **kw):
     return {"frame": fr, "opts": draw(options(fr, thorough=thorough, **opt_kw))}
 
 
+def extend_labels(cats, kind, k):
+    """k further labels of the kind of `cats`, none of them in it."""
+    out, i = [], 0
+    have = set(map(repr, cats))
+    while len(out) < k:
+        v = {"text": "ext%04d" % i, "int": 100000 + i, "float": 1000.5 + i}.get(kind)
+        if v is None:
+            break
+        if repr(v) not in have:
+            out.append(v)
+        i += 1
+    return list(cats) + out
+
+
 @st.composite
-def compatible_frame(draw, fr, thorough=False, rows=None, same_categories=False):
+def compatible_frame(draw, fr, thorough=False, rows=None, same_categories=False, extend_categories=None):
     """A frame with the same column names, dtypes and index shape as `fr`, fresh values."""
     rows = rows or [0, 1, 2, 3, 5, 8, 9, 17]
     n = draw(st.one_of(st.sampled_from(rows), st.integers(0, 12)))
@@ -335,6 +349,9 @@ def compatible_frame(draw, fr, thorough=False, rows=None, same_categories=False)
                          nulls=(c.get("null") or {}).get("pat", "none") != "none" or c["kind"] not in ("bool", "int")))
         if same_categories and c["kind"] == "category":
             nc["cats"] = list(c["cats"])
+        if extend_categories is not None and c["kind"] == "category":
+            # the same labels at the same codes, and some more behind them
+            nc["cats"] = extend_labels(c["cats"], c.get("labels", "text"), extend_categories)
         cols.append(nc)
     idx = None
     if fr.get("index") is not None:
